@@ -28,6 +28,11 @@
                        way of switching it on: the clause FieldTagLax is NAMED BUT NOT ASSERTED
                        (mode verdict "unasserted"; the harness records what the code does)
 
+   top     the field parameters of the ROOT node of a shape (tag number, tag class, explicit, optional,
+           default) are the TOP-LEVEL parameter string: UnmarshalWithParams(b, &T, "<parameters>[,lax]") in
+           the fork and in encoding/asn1, MarshalWithParams for the way back.  Inside the containers of mode
+           laxAncestor the same node is a struct member with the same parameters as its `asn1:"..."` tag.
+
    Verdict(case) says what three decoders must do with the bytes: the fork called strictly on T,
    the fork called as `mode` says, and the standard library's encoding/asn1 (upstream).  It is
    written from the property text, the fork's package documentation and X.690 - as a table of
@@ -165,7 +170,41 @@ Shapes == [
   seq255   |-> Struct({"body255"}, <<L("bytes", {"len252"})>>),
   seq256   |-> Struct({"body256"}, <<L("bytes", {"len253"})>>),
   seq65535 |-> Struct({"body65535"}, <<L("bytes", {"len65531"})>>),
-  seq65536 |-> Struct({"body65536"}, <<L("bytes", {"len65532"})>>)
+  seq65536 |-> Struct({"body65536"}, <<L("bytes", {"len65532"})>>),
+  \* ---- tag classes (clause ClassTable below): EXPLICIT / IMPLICIT x {no class option (context-specific), application,
+  \* private, both options} x tag numbers (0 implied by the class option alone, 1.., 30 | 31 = last short / first long
+  \* identifier, 40) x required / OPTIONAL / DEFAULT x primitive / constructed content, as struct members ...
+  clsexpl  |-> Struct({}, <<Expl({"tag1"}, L("int", {})), Expl({"tag1", "application"}, L("int", {})),
+                             Expl({"tag1", "application", "private"}, L("int", {}))>>),
+  clsimpl  |-> Struct({}, <<L("int", {"tag1"}), L("int", {"tag1", "application"}), L("int", {"tag1", "private"})>>),
+  clsmix   |-> Struct({}, <<Expl({"application"}, L("oid", {})), L("str", {"private", "utf8"}),
+                             Expl({"tag30", "application"}, L("str", {})), L("bitstring", {"tag31", "private"}),
+                             Expl({"tag40", "application", "private"}, SeqOf({}, L("int", {}))),
+                             Struct({"tag2", "application"}, <<L("int", {}), L("bool", {})>>),
+                             SetOf({"tag3", "private"}, L("oid", {})), L("raw", {"tag4", "private"})>>),
+  clsopt   |-> Struct({}, <<L("int", {}), Expl({"tag1", "application"} \cup Opt, L("int", {})),
+                             L("str", {"tag1", "private", "utf8"} \cup Opt),
+                             Expl({"tag2", "application", "private", "default7"} \cup Opt, L("int", {"default7"})),
+                             L("int", {"tag2", "private", "default7"} \cup Opt)>>),
+  \* (the ClassQuirk members - Marshal writes another class than Unmarshal reads - in shapes of their own)
+  clsexplP |-> Struct({}, <<Expl({"tag1", "private"}, L("int", {})), Expl({"tag1"}, L("int", {})),
+                             Expl({"private"}, L("oid", {}))>>),
+  clsimplAP|-> Struct({}, <<L("int", {"tag1", "application", "private"}), L("int", {"tag1", "application"}),
+                             Struct({"tag31", "application", "private"}, <<L("bool", {})>>)>>),
+  clsoptreq|-> Struct({}, <<Expl({"tag1", "private"} \cup Opt, L("int", {})),
+                             L("int", {"tag1", "application", "private"} \cup Opt), L("bool", {})>>),
+  \* ... and at top level (the root's parameters are the parameter string of UnmarshalWithParams / MarshalWithParams;
+  \* inside the containers "struct" / "optional" of mode laxAncestor the same node is a struct member)
+  topxC    |-> Expl({"tag1"}, L("int", {})),
+  topxA    |-> Expl({"tag1", "application"}, L("int", {})),
+  topxP    |-> Expl({"tag1", "private"}, L("int", {})),
+  topxAP   |-> Expl({"tag31", "application", "private"}, L("str", {})),
+  topxO    |-> Expl({"tag1", "private", "default7"} \cup Opt, L("int", {"default7"})),
+  topiC    |-> L("int", {"tag1"}),
+  topiA    |-> L("oid", {"application"}),
+  topiP    |-> L("int", {"tag1", "private"}),
+  topiAP   |-> Struct({"tag30", "application", "private"}, <<L("int", {}), L("str", {})>>),
+  topiO    |-> L("int", {"tag1", "application", "default7"} \cup Opt)
 ]
 
 LengthShapes == {"oct0", "oct1", "oct127", "oct128", "oct255", "oct256", "oct65535", "oct65536",
@@ -174,6 +213,32 @@ LengthShapes == {"oct0", "oct1", "oct127", "oct128", "oct255", "oct256", "oct655
 LengthFormDefects == {"nonMinimalLength", "leadingZeroLength", "indefiniteLength"}
 
 Count(v) == CASE v = 0 -> 2 [] v = 1 -> 0 [] v = 3 -> 1 [] OTHER -> 3   \* elements of every SEQUENCE OF / SET OF
+
+(* ---- tag classes (clause ClassTable) ---------------------------------------------------------
+   X.680 31.2: a tag is a class (universal, application, private, context-specific) and a number.  The field
+   parameters `application` / `private` choose the class of the EXPLICIT or IMPLICIT tag of a member, `tag:N` its
+   number.  The property says "as strict as upstream", so the table is upstream's (encoding/asn1, asn1.go parseField,
+   marshal.go makeField), every row of it re-confirmed against the real encoding/asn1 on every run:
+     ReadClass    the class Unmarshal expects.  EXPLICIT: application if the option is there, else context-specific -
+                  `private` is NOT consulted (ExplicitIgnoresPrivate).  IMPLICIT: private, else application, else
+                  context-specific (ImplicitPrivateWins when both options are given).
+     WriteClass   the class Marshal writes, EXPLICIT or IMPLICIT: application, else private, else context-specific
+                  (MarshalApplicationWins).
+     ClassImpliesTag0   a class option (or `explicit`) without `tag:N` means tag number 0.
+   Where ReadClass # WriteClass (explicit+private; implicit application+private) Marshal does not reproduce an input
+   Unmarshal accepts - in both packages alike: such a member is a ClassQuirk and RoundTrip is not asserted of a value
+   that has one (MarshalAgrees still is).                                                                      *)
+ClassOpts == {"application", "private"}
+TagNames  == {"tag0", "tag1", "tag2", "tag3", "tag4", "tag5", "tag9", "tag30", "tag31", "tag40", "tag41", "tag1000"}
+Tagged(n)  == n.k = "explicit" \/ n.p \cap (TagNames \cup ClassOpts) # {}
+TagName(n) == IF n.p \cap TagNames = {} THEN "tag0" ELSE CHOOSE x \in n.p \cap TagNames : TRUE
+ReadClass(n) ==
+  IF n.k = "explicit" THEN (IF "application" \in n.p THEN "application" ELSE "context")
+  ELSE IF "private" \in n.p THEN "private" ELSE IF "application" \in n.p THEN "application" ELSE "context"
+WriteClass(n) == IF "application" \in n.p THEN "application" ELSE IF "private" \in n.p THEN "private" ELSE "context"
+ClassQuirk(n) == Tagged(n) /\ ReadClass(n) # WriteClass(n)
+\* the root carries field parameters: it can be a struct member or the top level, not an element / the inside of EXPLICIT
+RootField(t) == Tagged(t) \/ "optional" \in t.p \/ "default7" \in t.p
 
 (* ---- containers of mode laxAncestor: T sits at WrapAt(w) of Wrap(w, T) ---------------------- *)
 Wrap(w, t) ==
@@ -190,6 +255,7 @@ Wrap(w, t) ==
 WrapOK(w, t) == /\ ~(w = "explicit" /\ (t.k \in {"raw", "any"} \/ "rawcontent" \in t.p))
                 /\ ~(w \in {"seqof", "setof", "optional"} /\ t.k = "any")
                 /\ ~(w = "optional" /\ t.k = "struct" /\ t.kids = <<>>)   \* a present empty struct is the zero value: Marshal omits it
+                /\ ~(w \in {"seqof", "setof", "explicit"} /\ RootField(t))  \* elements / the inside of EXPLICIT have no parameters
 \* paths of T's root inside the container (one per element for SEQUENCE OF / SET OF)
 WrapRoots(w, v) ==
   CASE w = "none"     -> {<<>>}
@@ -214,6 +280,7 @@ IsSeq(n) == n.k \in {"seqof", "setof"}
 RECURSIVE PathsOf(_, _), NodeAt(_, _)
 \* paths (child indices; element indices for SEQUENCE OF) of the nodes present in the value tree
 PathsOf(t, v) ==
+  IF ~Present(t, v) THEN {} ELSE      \* (an OPTIONAL root that is absent: the empty input)
   {<<>>} \cup
   IF IsSeq(t) THEN UNION {{<<i>> \o q : q \in PathsOf(t.kids[1], v)} : i \in 1..Count(v)}
   ELSE UNION {{<<i>> \o q : q \in PathsOf(t.kids[i], v)} : i \in {j \in DOMAIN t.kids : Present(t.kids[j], v)}}
@@ -241,12 +308,13 @@ Wire(n) ==
     [] OTHER -> n.k
 
 \* variant 2 of an untagged string without string type is not printable and travels as UTF8String
-WireV(n, v) == IF n.k = "str" /\ v = 2 /\ n.p \cap {"utf8", "ia5", "numeric", "printable", "tag1", "tag1000"} = {}
+\* (an implicitly tagged string hides the string type: it is read as the declared one, PrintableString by default)
+WireV(n, v) == IF n.k = "str" /\ v = 2 /\ n.p \cap {"utf8", "ia5", "numeric", "printable"} = {} /\ ~Tagged(n)
                THEN "utf8" ELSE Wire(n)
 
 Fixed32(n) == n.k \in {"int32", "enum"}
 Fixed64(n) == n.k \in {"int", "int64"} \/ (n.k = "any" /\ "anyint" \in n.p)
-HighTag(n) == n.p \cap {"tag40", "tag41", "tag1000"} # {}
+HighTag(n) == n.p \cap {"tag31", "tag40", "tag41", "tag1000"} # {}
 MatchesAnyTag(n) == n.k \in {"raw", "any"}
 
 \* a mismatching tag on an optional element is not an error of that element (it is taken as absent)
@@ -255,7 +323,21 @@ OptionalHere(t, p) == IsOpt(NodeAt(t, p)) \/ (p # <<>> /\ Parent(t, p).k = "expl
 (* ---- defects -------------------------------------------------------------------------------- *)
 HeaderDefects == {"nonMinimalLength", "leadingZeroLength", "indefiniteLength", "truncated"}
 
-Defects == LaxTolerated \cup AlwaysRejected \cup DeliberateDiff \cup Benign
+(* wire classes: the identifier of a tagged member is written with ANOTHER class than the one Unmarshal expects (same
+   number, same constructed bit).  A required member: rejected by every decoder.  An OPTIONAL member: taken as absent
+   (it gets its DEFAULT / stays zero) and the element is offered to the members after it: a required one rejects it,
+   optional ones are absent in turn and the element - with everything behind it - is ignored like any extra element at
+   the end of a SEQUENCE (clause trailingInSequence); at top level nothing is consumed.  Cases where a later member
+   could take the element (same class and number, RawValue, interface{}) are left out.                          *)
+ClassDefects == {"classUniversal", "classContext", "classApplication", "classPrivate"}
+WireClass(d) == CASE d = "classUniversal" -> "universal" [] d = "classContext" -> "context"
+                  [] d = "classApplication" -> "application" [] d = "classPrivate" -> "private"
+
+Defects == LaxTolerated \cup AlwaysRejected \cup DeliberateDiff \cup Benign \cup ClassDefects
+
+\* the members after the one at p in its struct
+MembersAfter(t, p) == IF p = <<>> THEN {} ELSE {j \in DOMAIN Parent(t, p).kids : j > p[Len(p)]}
+CouldTake(m, cls, tn) == MatchesAnyTag(m) \/ (Tagged(m) /\ ReadClass(m) = cls /\ TagName(m) = tn)
 
 Applicable(d, t, v, p) ==
   LET n == NodeAt(t, p)
@@ -281,8 +363,12 @@ Applicable(d, t, v, p) ==
        [] d = "utcNoSeconds" -> w = "utc"
        [] d = "highTagLeading80" -> HighTag(n)
        [] d = "setOfUnsorted" -> n.k = "setof" /\ Count(v) >= 2
-       [] d = "rawInnerNonDER" -> n.k = "raw"
+       [] d = "rawInnerNonDER" -> n.k = "raw" /\ ~Tagged(n)
        [] d = "trailingInSequence" -> n.k = "struct"
+       [] d \in ClassDefects ->
+            /\ Tagged(n) /\ WireClass(d) # ReadClass(n)
+            /\ IsOpt(n) => /\ d # "classUniversal"
+                           /\ \A j \in MembersAfter(t, p) : ~CouldTake(Parent(t, p).kids[j], WireClass(d), TagName(n))
        [] OTHER -> FALSE
 
 (* ---- cases ---------------------------------------------------------------------------------- *)
@@ -314,6 +400,8 @@ TimeLeafPaths(t, v) == {p \in PathsOf(t, v) : NodeAt(t, p).k \in TimeKinds}
 TfOK(t, v, tf) == \A p \in TimeLeafPaths(t, v) : NodeAt(t, p).k = "utctime" => InUTCRange(LocalYear(tf))
 \* Marshal(Unmarshal(b)) = b needs Marshal to choose the form that was on the wire
 TimeRT(x) == x.tf = NoTF \/ \A p \in TimeLeafPaths(Tree(x), x.v) : MarshalForm(NodeAt(Tree(x), p), x.tf) = WireForm(NodeAt(Tree(x), p))
+\* ClassQuirk: Marshal writes another class than Unmarshal reads for some member that is on the wire
+ClassRT(x) == \A p \in PathsOf(Tree(x), x.v) : ~ClassQuirk(NodeAt(Tree(x), p))
 RECURSIVE HasKind(_, _)
 HasKind(t, ks) == t.k \in ks \/ \E i \in DOMAIN t.kids : HasKind(t.kids[i], ks)
 
@@ -370,8 +458,18 @@ DefectTable(d) ==
     [] d = "utcNoSeconds"        -> [strict |-> "accept", lax |-> "accept", std |-> "accept"]  \* YYMMDDhhmmZ
     [] OTHER                     -> [strict |-> "reject", lax |-> "reject", std |-> "reject"]
 
+\* a wire class that is not the expected one (ClassDefects): the same for every decoder in every mode
+ClassRow(x) ==
+  LET t == Tree(x)
+      absent == IsOpt(NodeAt(t, x.path)) /\ \A j \in MembersAfter(t, x.path) : IsOpt(Parent(t, x.path).kids[j])
+  IN IF absent THEN [strict |-> "accept", lax |-> "accept", std |-> "accept"]
+     ELSE [strict |-> "reject", lax |-> "reject", std |-> "reject"]
+Row(x) == IF x.defect \in ClassDefects THEN ClassRow(x) ELSE DefectTable(x.defect)
+
 \* which decoded value an accepting decoder must produce ("same" = the value the bytes were made from)
-ValueOf(d) == IF d \in {"emptyOID", "printableIsLatin1", "printableIsT61", "genTimeFraction", "setOfUnsorted",
+\* "absentFrom": the member at the path and every member after it in the same struct are absent (DEFAULT / zero)
+ValueOf(d) == IF d \in ClassDefects THEN "absentFrom" ELSE
+              IF d \in {"emptyOID", "printableIsLatin1", "printableIsT61", "genTimeFraction", "setOfUnsorted",
                         "rawInnerNonDER", "utcNoSeconds"} THEN d ELSE "same"
 
 \* the defect sits in an element of a SET OF: its encoding changes, so the SET OF may no longer be sorted and
@@ -381,9 +479,10 @@ UnderRawContent(t, p) == \E q \in {SubSeq(p, 1, i) : i \in 0..Len(p)} : "rawcont
 
 Verdict(x) ==
   LET t   == Tree(x)
-      row == DefectTable(x.defect)
+      row == Row(x)
       md  == IF FieldTagLax(x) THEN "unasserted" ELSE IF InEffect(x) THEN row.lax ELSE row.strict
       keeps == UnderRawContent(t, x.path)       \* Marshal re-emits the preserved encoding
+      crt == ClassRT(x)
       der == x.defect \in {"none", "rawInnerNonDER"} /\ TimeRT(x)
       \* MarshalAgrees (named extension, asserted because the unchanged fork satisfies it on every case): when both
       \* packages decode the input, both marshal the decoded value to the same bytes - SET OF excepted (setOfUnsorted)
@@ -393,10 +492,12 @@ Verdict(x) ==
        std      |-> row.std,                    \* encoding/asn1
        value    |-> ValueOf(x.defect),
        rest     |-> HasRest(x.v) /\ x.defect # "truncated",
+       \* what the call consumes: the value, or nothing at all (an OPTIONAL top-level element taken as absent)
+       takes    |-> IF x.defect \in ClassDefects /\ x.path = <<>> /\ row.strict = "accept" THEN "nothing" ELSE "value",
        \* Marshal(decoded) = consumed input bytes?  (asserted only where TRUE)
-       rt       |-> row.strict = "accept" /\ (der \/ keeps \/ x.defect = "setOfUnsorted"),
-       rtMode   |-> md = "accept" /\ (der \/ keeps \/ x.defect = "setOfUnsorted"),
-       rtStd    |-> row.std = "accept" /\ ((x.defect = "none" /\ TimeRT(x)) \/ ((der \/ keeps) /\ ~ThroughSetOf(t, x.path))),
+       rt       |-> row.strict = "accept" /\ crt /\ (der \/ keeps \/ x.defect = "setOfUnsorted"),
+       rtMode   |-> md = "accept" /\ crt /\ (der \/ keeps \/ x.defect = "setOfUnsorted"),
+       rtStd    |-> row.std = "accept" /\ crt /\ ((x.defect = "none" /\ TimeRT(x)) \/ ((der \/ keeps) /\ ~ThroughSetOf(t, x.path))),
        mEq      |-> row.strict = "accept" /\ agree,
        mEqMode  |-> md = "accept" /\ agree,
        inEffect |-> InEffect(x) ]
@@ -404,7 +505,8 @@ Verdict(x) ==
 (* ---- laws (checked by TLC on every case) ---------------------------------------------------- *)
 E == vd
 
-TypeOK == /\ c.mode \in {"strict", "laxTop", "laxAncestor", "fieldTag"} /\ c.defect \in Defects \cup {"none"}
+TypeOK == /\ ClassDefects \cap (LaxTolerated \cup AlwaysRejected \cup DeliberateDiff \cup Benign) = {}
+          /\ c.mode \in {"strict", "laxTop", "laxAncestor", "fieldTag"} /\ c.defect \in Defects \cup {"none"}
           /\ c.tf \in TimeForms \cup {NoTF} /\ (c.tf # NoTF => (c.defect = "none" /\ TfOK(Tree(c), c.v, c.tf)))
           /\ LaxTolerated \cap AlwaysRejected = {} /\ LaxTolerated \cap DeliberateDiff = {}
           /\ AlwaysRejected \cap DeliberateDiff = {} /\ Benign \cap (LaxTolerated \cup AlwaysRejected \cup DeliberateDiff) = {}
@@ -426,7 +528,7 @@ DiffsAreDiffs == (c.defect \in DeliberateDiff /\ ~UnderRawContent(Tree(c), c.pat
 Rejected == c.defect \in AlwaysRejected => (E.strict = "reject" /\ E.mode = "reject" /\ E.std = "reject")
 BenignAccepted == c.defect \in Benign => (E.strict = "accept" /\ E.mode = "accept" /\ E.std = "accept")
 \* Marshal(Unmarshal(b)) = b for strict DER
-RoundTrip == (c.defect = "none" /\ c.tf = NoTF) => (E.rt /\ E.rtMode /\ E.rtStd)
+RoundTrip == (c.defect = "none" /\ c.tf = NoTF /\ ClassRT(c)) => (E.rt /\ E.rtMode /\ E.rtStd)
 \* ... times: strict DER is "Z"; the input round-trips when it is written in the form Marshal chooses for it
 WireMatches == \A p \in TimeLeafPaths(Tree(c), c.v) : MarshalForm(NodeAt(Tree(c), p), c.tf) = WireForm(NodeAt(Tree(c), p))
 TimeRoundTripDER == (c.tf # NoTF /\ c.tf.off = 0 /\ WireMatches) => (E.rt /\ E.rtMode /\ E.rtStd)
@@ -442,7 +544,26 @@ StraddleClasses == {<<LocalYear(tf), UtcYear(tf)>> : tf \in {x \in TimeForms : S
 \* decoder in any mode accepts another length form
 LengthRoundTrip == (c.shape \in LengthShapes /\ c.defect = "none") => (E.rt /\ E.rtMode /\ E.rtStd)
 LengthFormsRejected == c.defect \in LengthFormDefects => (E.strict = "reject" /\ E.mode = "reject" /\ E.std = "reject")
-RawContentKeeps == (E.mode = "accept" /\ UnderRawContent(Tree(c), c.path)) => E.rtMode
+RawContentKeeps == (E.mode = "accept" /\ UnderRawContent(Tree(c), c.path) /\ ClassRT(c)) => E.rtMode
+(* tag classes *)
+TaggedNodes == {NodeAt(Tree(c), p) : p \in {q \in PathsOf(Tree(c), c.v) : Tagged(NodeAt(Tree(c), q))}}
+\* the quirks are exactly the two named combinations of options
+ClassQuirkNamed == \A n \in TaggedNodes :
+   ClassQuirk(n) <=> \/ (n.k = "explicit" /\ "private" \in n.p /\ "application" \notin n.p)
+                     \/ (n.k # "explicit" /\ ClassOpts \subseteq n.p)
+\* without a class option the tag is context-specific, read and written
+ClassDefaultContext == \A n \in TaggedNodes : n.p \cap ClassOpts = {} => (ReadClass(n) = "context" /\ WriteClass(n) = "context")
+\* strict DER round-trips wherever Marshal writes the class Unmarshal reads
+ClassRoundTrip == (c.defect = "none" /\ c.tf = NoTF /\ \A n \in TaggedNodes : ReadClass(n) = WriteClass(n)) => (E.rt /\ E.rtMode /\ E.rtStd)
+\* another class on the wire is never decoded as the member: rejected, or the OPTIONAL member is absent - alike in every
+\* mode and upstream
+ClassMismatch == c.defect \in ClassDefects =>
+   LET n == NodeAt(Tree(c), c.path) IN
+   /\ WireClass(c.defect) # ReadClass(n)
+   /\ E.strict = E.std /\ (c.mode # "fieldTag" => E.mode = E.strict)
+   /\ ~IsOpt(n) => E.strict = "reject"
+   /\ E.strict = "accept" => (IsOpt(n) /\ E.value = "absentFrom" /\ ~E.rt /\ ~E.rtMode /\ ~E.rtStd)
+   /\ E.takes = "nothing" => (c.path = <<>> /\ E.strict = "accept")
 
 Init == c \in Cases /\ vd = Verdict(c)
 Next == UNCHANGED <<c, vd>>
